@@ -110,14 +110,14 @@ def pow2_value_full : Prop :=
     fmt.mantissaRadix = 2 ^ bpd → fmt.exponentBase = 2 ^ bpb → 1 ≤ bpd → bpd ≤ 5 →
     (bpb = 1 ∨ (bpb = 2 ∧ bpd = 4) ∨ bpb = bpd) → 0 < m → 5 ≤ w → w ≤ 64 → m * 16 < 2 ^ w → -1900 ≤ e → e ≤ 1900 →
     o.maxDigits = some d → 1 ≤ d → d * bpd < significantBits m →
-    layoutQ (2 ^ bpd) (2 ^ bpb) (layoutMEO fmt o w m e) =
+    layoutQ (2 ^ bpd) (2 ^ bpb) (layoutMEOWith false fmt o w m e) =
       (keptMantissa o m (significantBits m - d * bpd) : ℚ) * (2 : ℚ) ^ (e + ((significantBits m - d * bpd : Nat) : ℤ))
 
 /-- digit-count law without the alignment hypothesis — **false**: `more_than_max_*` -/
 def pow2_digits_full : Prop :=
   ∀ (o : WOpts) (w bpd m d : Nat) (e : ℤ), 1 ≤ bpd → bpd ≤ 5 → 0 < m → significantBits m ≤ w → w ≤ 64 →
     -3000 ≤ e → e ≤ 3000 → o.maxDigits = some d → 1 ≤ d → d * bpd < significantBits m →
-    (rtrimZeros (mantissaDigits w (2 ^ bpd) (truncateAndRoundBits w m (2 ^ bpd) e o).1 e)).length ≤ d
+    (rtrimZeros (mantissaDigits w (2 ^ bpd) (truncateAndRoundSel false w m (2 ^ bpd) e o).1 e)).length ≤ d
 
 def fmtR4 : Format := ⟨0x404040000000000000000000000000c⟩
 def fmtR16 : Format := ⟨0x1010100000000000000000000000000c⟩
@@ -127,31 +127,94 @@ def pow2Feats : Features := { powerOfTwo := true }
 (`wf f64 404040000000000000000000000000c 3ff0000000000000 1 - - - r 0 101 46 4e614e 696e66 -`): 53 mantissa bits are cut to
 2 bits (`10`), handed on as if still at exponent −52, whose `calculate_shl` is 0 — the digit `2`. -/
 theorem value_off_one_radix4 :
-    writeFloatO fmtR4 pow2Feats { maxDigits := some 1 } .f64 0x3ff0000000000000 = some [50, 46, 48] := by decide +kernel
+    writeFloatOWith false fmtR4 pow2Feats { maxDigits := some 1 } .f64 0x3ff0000000000000 = some [50, 46, 48] := by decide +kernel
 
 /-- **value-off**: `1.5f64` in radix 16, one digit: `C.0` (12 instead of 2) -/
 theorem value_off_hex :
-    writeFloatO fmtR16 pow2Feats { maxDigits := some 1, exp := 94 } .f64 0x3ff8000000000000 = some [67, 46, 48] := by
+    writeFloatOWith false fmtR16 pow2Feats { maxDigits := some 1, exp := 94 } .f64 0x3ff8000000000000 = some [67, 46, 48] := by
   decide +kernel
 
 /-- **value-off**: `255.9375f64` in radix 16, two digits: `800.0` (2048 instead of 256) -/
 theorem value_off_hex_carry :
-    writeFloatO fmtR16 pow2Feats { maxDigits := some 2, exp := 94 } .f64 0x406ffe0000000000 =
+    writeFloatOWith false fmtR16 pow2Feats { maxDigits := some 2, exp := 94 } .f64 0x406ffe0000000000 =
       some [56, 48, 48, 46, 48] := by decide +kernel
 
 /-- **more-than-max** (value right, `4 ∣ 24` but `4 ∤ e`): `1.5f32` in radix 16 with one digit is written `1.8` —
 two significant digits (`wf f32 1010100000000000000000000000000c 3fc00000 1 - - - r 0 94 46 4e614e 696e66 -`) -/
 theorem more_than_max_hex_f32 :
-    writeFloatO fmtR16 pow2Feats { maxDigits := some 1, exp := 94 } .f32 0x3fc00000 = some [49, 46, 56] := by
+    writeFloatOWith false fmtR16 pow2Feats { maxDigits := some 1, exp := 94 } .f32 0x3fc00000 = some [49, 46, 56] := by
   decide +kernel
 
 /-- **aligned, right** (non-vacuity of both partial laws: f32, `4 ∣ 24`, exponent −20): `8.75f32` in radix 16 with one
 digit is `9.0`; `255.9375f32` with two digits carries to `100.0` -/
 theorem aligned_ok_f32 :
-    writeFloatO fmtR16 pow2Feats { maxDigits := some 1, exp := 94 } .f32 0x410c0000 = some [57, 46, 48] ∧
-    writeFloatO fmtR16 pow2Feats { maxDigits := some 2, exp := 94 } .f32 0x437ff000 = some [49, 48, 48, 46, 48] ∧
+    writeFloatOWith false fmtR16 pow2Feats { maxDigits := some 1, exp := 94 } .f32 0x410c0000 = some [57, 46, 48] ∧
+    writeFloatOWith false fmtR16 pow2Feats { maxDigits := some 2, exp := 94 } .f32 0x437ff000 = some [49, 48, 48, 46, 48] ∧
     (4 : ℤ) ∣ FTy.exponent .f32 0x410c0000 ∧ 4 ∣ significantBits (FTy.mantissa .f32 0x410c0000) := by
   refine ⟨by decide +kernel, by decide +kernel, by decide +kernel, by decide +kernel⟩
+
+/-! ## the repaired `truncate_and_round` (`fixes/C14-pow2-digit-options.diff`, `truncateAndRoundFixed`): regressions -/
+
+/-- the witnesses above under the repair: `1.0` → `1.0` (radix 4), `1.5` → `2.0`, `255.9375` → `100.0` (radix 16, f64),
+`1.5f32` with one hex digit → `2.0` (tie to even) -/
+theorem fixed_regressions :
+    writeFloatOWith true fmtR4 pow2Feats { maxDigits := some 1 } .f64 0x3ff0000000000000 = some [49, 46, 48] ∧
+    writeFloatOWith true fmtR16 pow2Feats { maxDigits := some 1, exp := 94 } .f64 0x3ff8000000000000 = some [50, 46, 48] ∧
+    writeFloatOWith true fmtR16 pow2Feats { maxDigits := some 2, exp := 94 } .f64 0x406ffe0000000000 =
+      some [49, 48, 48, 46, 48] ∧
+    writeFloatOWith true fmtR16 pow2Feats { maxDigits := some 1, exp := 94 } .f32 0x3fc00000 = some [50, 46, 48] ∧
+    writeFloatOWith true fmtR16 pow2Feats { maxDigits := some 1, exp := 94 } .f32 0x410c0000 = some [57, 46, 48] := by
+  refine ⟨by decide +kernel, by decide +kernel, by decide +kernel, by decide +kernel, by decide +kernel⟩
+
+/-- **value law for the repaired code, NO alignment hypothesis**: the text denotes exactly the mantissa rounded half-even
+(or truncated) on the boundary of the `d`-th digit (`keptBits`: the leading digit holds `(sci mod bpd) + 1` bits), times
+`2^e`. -/
+theorem fixed_value (fmt : Format) (o : WOpts) {w bpd bpb m d : Nat} {e : ℤ}
+    (hr : fmt.mantissaRadix = 2 ^ bpd) (hb : fmt.exponentBase = 2 ^ bpb)
+    (h1 : 1 ≤ bpd) (h5 : bpd ≤ 5) (hpair : bpb = 1 ∨ (bpb = 2 ∧ bpd = 4) ∨ bpb = bpd)
+    (hm : 0 < m) (hw : 6 ≤ w) (hw64 : w ≤ 64) (hmw : m * 32 < 2 ^ w) (he1 : -2000 ≤ e) (he2 : e ≤ 2000)
+    (hd : o.maxDigits = some d) (hd1 : 1 ≤ d) (hd64 : d ≤ 64)
+    (hlt : keptBits bpd d (significantBits m) e < significantBits m) :
+    layoutQ (2 ^ bpd) (2 ^ bpb) (layoutMEOWith true fmt o w m e) =
+      (keptMantissa o m (significantBits m - keptBits bpd d (significantBits m) e) : ℚ) *
+        (2 : ℚ) ^ (e + ((significantBits m - keptBits bpd d (significantBits m) e : Nat) : ℤ)) := by
+  obtain ⟨s1, s2, s3⟩ := significantBits_spec hm
+  have hmbw : significantBits m < w := by
+    have : 2 ^ (significantBits m - 1) * 32 < 2 ^ w := by omega
+    have h2 : (2 : Nat) ^ (significantBits m - 1) * 32 = 2 ^ (significantBits m - 1 + 5) := by rw [Nat.pow_add]
+    rw [h2] at this
+    have := (Nat.pow_lt_pow_iff_right (by decide : 1 < 2)).mp this
+    omega
+  obtain ⟨heq, hpos, hle, hK1⟩ := truncFixed_spec o e h1 h5 hm hmbw hw64 hd hd1 hd64 hlt
+  unfold layoutMEOWith truncateAndRoundSel
+  simp only [if_true, hr]
+  rw [heq]
+  dsimp only
+  rw [← layoutME_eq]
+  generalize hshr : significantBits m - keptBits bpd d (significantBits m) e = shr at *
+  generalize hR : keptMantissa o m shr = R at *
+  have hK : keptBits bpd d (significantBits m) e + shr = significantBits m := by omega
+  have hM : R <<< shr ≤ 2 ^ significantBits m := by
+    rw [Nat.shiftLeft_eq, ← hK, Nat.pow_add]
+    exact Nat.mul_le_mul_right _ hle
+  have hMpos : 0 < R <<< shr := by rw [Nat.shiftLeft_eq]; exact Nat.mul_pos hpos (Nat.two_pow_pos _)
+  have h2m : 2 ^ significantBits m ≤ 2 * m := by
+    have : (2 : Nat) ^ significantBits m = 2 * 2 ^ (significantBits m - 1) := by
+      rw [← Nat.pow_succ']; congr 1; omega
+    omega
+  rw [layoutME_exact fmt o hr hb h1 h5 hpair hMpos (by omega) (by omega)
+    (by have : (2:Nat) ^ w ≤ 2 ^ 64 := Nat.pow_le_pow_right (by decide) hw64; omega) (by omega) (by omega)]
+  rw [Nat.shiftLeft_eq]
+  push_cast
+  rw [zpow_add₀ (by norm_num : (2 : ℚ) ≠ 0), zpow_natCast]
+  ring
+
+/-- digit-count law for the repaired code (all alignments) — statement only; the correspondence (`props/C14.py`
+`radix_laws` on every generated op, `VERIF_REPO` = repaired tree) shows no violation -/
+def fixed_digits_full : Prop :=
+  ∀ (o : WOpts) (w bpd m d : Nat) (e : ℤ), 1 ≤ bpd → bpd ≤ 5 → 0 < m → significantBits m < w → w ≤ 64 →
+    -3000 ≤ e → e ≤ 3000 → o.maxDigits = some d → 1 ≤ d →
+    (rtrimZeros (mantissaDigits w (2 ^ bpd) (truncateAndRoundSel true w m (2 ^ bpd) e o).1 e)).length ≤ d
 
 /-- the digit-count law is false in general (`more_than_max_hex_f32` at the level of the digit string) -/
 theorem pow2_digits_full_false : ¬ pow2_digits_full := by
